@@ -14,6 +14,8 @@ pub struct CScenario {
 #[derive(Clone, Debug)]
 pub struct CProfile {
     pub w_step: u32,
+    /// steps polled with a nearly exhausted cooperative-scheduling budget (COp::StepCoop)
+    pub w_stepcoop: u32,
     pub w_drain: u32,
     pub w_newcall: u32,
     pub w_reply: u32,
@@ -48,6 +50,7 @@ impl Default for CProfile {
     fn default() -> Self {
         CProfile {
             w_step: 30,
+            w_stepcoop: 0,
             w_drain: 8,
             w_newcall: 20,
             w_reply: 15,
@@ -118,6 +121,7 @@ pub fn op_strategy(p: &CProfile) -> BoxedStrategy<COp> {
         }
     };
     add(p.w_step, any::<u16>().prop_map(|sel| COp::Step { sel }).boxed());
+    add(p.w_stepcoop, (any::<u16>(), 0u8..6).prop_map(|(sel, budget)| COp::StepCoop { sel, budget }).boxed());
     add(p.w_drain, Just(COp::Drain).boxed());
     add(
         p.w_newcall,
